@@ -1,5 +1,6 @@
 import VermouthModel.Proto
 import VermouthModel.C04
+import VermouthModel.C19_Repair
 open Proto Iso C04
 
 def attrOf (t : Tok) : Option (String × String) := do
@@ -61,6 +62,17 @@ def handle (_ : Unit) (toks : List Tok) : Unit × String :=
                                encList (ms.map fun M => encList (M.map encPair)), encList (log.map encEvent)])
     | [Tok.str "mcis", gn, ge, sn, se] => do
         pure (encNat (mcisSize (← graphOf gn ge) (← graphOf sn se)))
+    | [Tok.str "patch", bn, be, mods] => do
+        -- `_patch_modification` (model shared with C19): block patched with the modifications in turn
+        let b : Block := { nodes := ← (← bn.list?).mapM atomOf, edges := ← pairsOf be }
+        let mds ← (← mods.list?).mapM fun t => do
+          match ← t.list? with
+          | [mn, me] => pure ({ nodes := ← (← mn.list?).mapM atomOf, edges := ← pairsOf me } : Block)
+          | _ => none
+        match mds.foldl (fun acc md => acc.bind fun b => C19.Repair.patchModification b md) (some b) with
+        | none => pure "does-not-fit"
+        | some b' => pure (encList (b'.nodes.map fun a => encList [encInt a.key, encStr a.name])
+                           ++ " " ++ encList ((canonEdges b'.edges).map encPair))
     | [Tok.str "connected", bn, be] => do
         let b : Block := { nodes := ← (← bn.list?).mapM atomOf, edges := ← pairsOf be }
         pure (encBool (connectedB b))
